@@ -257,8 +257,22 @@ class Example:
             command_env["COLUMNS"] = str(
                 term_columns + 1 if platform.system() == "Windows" else term_columns
             )
-            command_env.pop("CI", None)
-            command_env.pop("GITHUB_ACTIONS", None)
+            # same variables as in pytest_plugin.is_ci_run()
+            for ci_var in (
+                "CI",
+                "bamboo.buildKey",
+                "BUILD_ID",
+                "BUILD_NUMBER",
+                "BUILDKITE",
+                "CIRCLECI",
+                "CONTINUOUS_INTEGRATION",
+                "GITHUB_ACTIONS",
+                "HUDSON_URL",
+                "JENKINS_URL",
+                "TEAMCITY_VERSION",
+                "TRAVIS",
+            ):
+                command_env.pop(ci_var, None)
 
             if stdin:
                 # makes Console.is_terminal == True
